@@ -21,7 +21,7 @@ def main(tier, args):
     depth, dl, budget = (6, 60, 85) if quick else (8, 1100, 1260)
     res = vf.Result(); log = open(vf.BUILD + "/C20/log.txt", "w")
     # per-process deadline + a check-wide absolute one, so that queued processes cannot add up beyond the tier budget
-    env = {"VERIF_DEADLINE_S": str(dl), "C20_DEADLINE_ABS": "%.0f" % (t0 + budget)}
+    env = {"VERIF_DEADLINE_S": str(dl), "C20_DEADLINE_ABS": "%.0f" % (time.time() + budget)}      # counted from the end of the build (an overloaded machine must not spend the whole budget compiling)
     cmds = []
     # firing histories first (the longest jobs), then the sweeps; ASan+UBSan build for everything (the week sweep runs 5*10^7 calls/s under ASan, -O2 is not needed)
     cmds += [("fire:" + c, [firex, "fire", c, str(depth)]) for c in FIRE]
